@@ -23,6 +23,8 @@ import (
 	"strconv"
 	"strings"
 	"sync"
+
+	"github.com/mgtv-tech/redis-GunYu/pkg/vfdoubles"
 )
 
 // ------------------------------------------------------------ store
@@ -78,6 +80,19 @@ type vfLeaseStore struct {
 	holdEval     bool
 	evalHeldCh   chan struct{}
 	evalReleaseC chan struct{}
+
+	// cluster mode (vfNewClusterLeaseStore): several listeners = nodes of one Redis Cluster sharing
+	// this key space; a slot has one owner; a data request for a key of a slot the receiving node
+	// does not own is answered -MOVED <slot> <owner address> and NOT executed (cluster.c
+	// getNodeByQuery); CLUSTER SLOTS describes the table. Re-assigning a slot (VerifMoveSlot)
+	// moves its keys with it (a completed resharding as the client sees it: the keys are one
+	// shared map). Not transcribed: ASK / importing-migrating states, replicas, fail-over.
+	clusterOn bool
+	nodeLns   []net.Listener
+	nodeAddrs []string
+	slotOwner [16384]int16
+	moved     int // requests answered with -MOVED
+	movedLog  []string
 }
 
 func (st *vfLeaseStore) armPause(conn, after int) {
@@ -104,8 +119,113 @@ func vfNewLeaseStore() (*vfLeaseStore, error) {
 	return st, nil
 }
 
+// vfNewClusterLeaseStore: n nodes; slots are dealt out evenly in contiguous ranges.
+func vfNewClusterLeaseStore(n int) (*vfLeaseStore, error) {
+	st := &vfLeaseStore{data: map[string]vfEntry{}, parsed: map[string]*vfLuaChunk{}, parseErr: map[string]error{}, pauseConn: -1, clusterOn: true}
+	for i := 0; i < n; i++ {
+		ln, err := net.Listen("tcp", "127.0.0.1:0")
+		if err != nil {
+			return nil, err
+		}
+		st.nodeLns = append(st.nodeLns, ln)
+		st.nodeAddrs = append(st.nodeAddrs, ln.Addr().String())
+	}
+	st.ln = st.nodeLns[0]
+	for sl := 0; sl < 16384; sl++ {
+		st.slotOwner[sl] = int16(sl * n / 16384)
+	}
+	for i, ln := range st.nodeLns {
+		go st.acceptLoopOn(ln, i)
+	}
+	return st, nil
+}
+
+func (st *vfLeaseStore) acceptLoopOn(ln net.Listener, node int) {
+	for {
+		c, err := ln.Accept()
+		if err != nil {
+			return
+		}
+		st.mu.Lock()
+		id := st.nextConn
+		st.nextConn++
+		st.mu.Unlock()
+		go st.serveNode(c, id, node)
+	}
+}
+
+// keys a data request names (for the slot check)
+func vfKeysOf(args []string) []string {
+	if len(args) < 2 {
+		return nil
+	}
+	switch strings.ToUpper(args[0]) {
+	case "GET", "SET", "EXPIRE", "DEL":
+		return args[1:2]
+	case "EVAL":
+		if len(args) < 3 {
+			return nil
+		}
+		nk, err := strconv.Atoi(args[2])
+		if err != nil || nk < 0 || 3+nk > len(args) {
+			return nil
+		}
+		return args[3 : 3+nk]
+	}
+	return nil
+}
+
+// movedLocked: the redirect a node gives for a request it must not serve (st.mu held)
+func (st *vfLeaseStore) movedLocked(node int, args []string) (vfReply, bool) {
+	if !st.clusterOn {
+		return vfReply{}, false
+	}
+	keys := vfKeysOf(args)
+	if len(keys) == 0 {
+		return vfReply{}, false
+	}
+	slot := vfdoubles.ClusterSlot(keys[0])
+	for _, k := range keys[1:] {
+		if vfdoubles.ClusterSlot(k) != slot {
+			return vfReply{kind: '-', s: "CROSSSLOT Keys in request don't hash to the same slot"}, true
+		}
+	}
+	owner := int(st.slotOwner[slot])
+	if owner == node {
+		return vfReply{}, false
+	}
+	st.moved++
+	st.movedLog = append(st.movedLog, strings.ToUpper(args[0]))
+	return vfReply{kind: '-', s: fmt.Sprintf("MOVED %d %s", slot, st.nodeAddrs[owner])}, true
+}
+
+func (st *vfLeaseStore) clusterSlotsLocked() string {
+	var sb strings.Builder
+	type rng struct{ a, b, o int }
+	var rs []rng
+	start := 0
+	for sl := 1; sl <= 16384; sl++ {
+		if sl == 16384 || st.slotOwner[sl] != st.slotOwner[start] {
+			rs = append(rs, rng{start, sl - 1, int(st.slotOwner[start])})
+			start = sl
+		}
+	}
+	fmt.Fprintf(&sb, "*%d\r\n", len(rs))
+	for _, r := range rs {
+		host, port, _ := net.SplitHostPort(st.nodeAddrs[r.o])
+		id := fmt.Sprintf("%040d", r.o)
+		fmt.Fprintf(&sb, "*3\r\n:%d\r\n:%d\r\n*3\r\n$%d\r\n%s\r\n:%s\r\n$%d\r\n%s\r\n", r.a, r.b, len(host), host, port, len(id), id)
+	}
+	return sb.String()
+}
+
 func (st *vfLeaseStore) Addr() string { return st.ln.Addr().String() }
-func (st *vfLeaseStore) Close()       { st.ln.Close() }
+func (st *vfLeaseStore) Close() {
+	st.ln.Close()
+	for _, ln := range st.nodeLns {
+		ln.Close()
+	}
+}
 
 func (st *vfLeaseStore) acceptLoop() {
 	for {
@@ -169,6 +289,25 @@ func (st *vfLeaseStore) exec(args []string) vfReply {
 	switch strings.ToUpper(args[0]) {
 	case "PING":
 		return vfReply{kind: '+', s: "PONG"}
+	case "CLUSTER":
+		if st.clusterOn && len(args) == 2 && strings.ToUpper(args[1]) == "SLOTS" {
+			return vfReply{kind: 'R', s: st.clusterSlotsLocked()}
+		}
+		return vfReply{kind: '-', s: "ERR This instance has cluster support disabled"}
+	case "COMMAND": // the cluster client asks a node where the keys of a command it has no table entry for are (GET)
+		if len(args) >= 3 && strings.ToUpper(args[1]) == "GETKEYS" {
+			keys := vfKeysOf(args[2:])
+			if len(keys) == 0 {
+				return vfReply{kind: '-', s: "ERR Invalid command specified"}
+			}
+			var sb strings.Builder
+			fmt.Fprintf(&sb, "*%d\r\n", len(keys))
+			for _, k := range keys {
+				fmt.Fprintf(&sb, "$%d\r\n%s\r\n", len(k), k)
+			}
+			return vfReply{kind: 'R', s: sb.String()}
+		}
+		return vfReply{kind: '-', s: "ERR double supports COMMAND GETKEYS only"}
 	case "INFO": // enough for redis.GetRedisRoleOnline on a standalone input
 		return vfReply{kind: '$', s: "# Server\r\nredis_version:7.0.0\r\n# Replication\r\nrole:master\r\nconnected_slaves:0\r\n"}
 	case "GET":
@@ -305,13 +444,17 @@ func vfWriteReply(w *bufio.Writer, rp vfReply) error {
 		w.WriteString("$-1\r\n")
 	case '+':
 		fmt.Fprintf(w, "+%s\r\n", rp.s)
+	case 'R': // pre-rendered reply
+		w.WriteString(rp.s)
 	default:
 		fmt.Fprintf(w, "-%s\r\n", rp.s)
 	}
 	return w.Flush()
 }
 
-func (st *vfLeaseStore) serve(c net.Conn, id int) {
+func (st *vfLeaseStore) serve(c net.Conn, id int) { st.serveNode(c, id, 0) }
+
+func (st *vfLeaseStore) serveNode(c net.Conn, id int, node int) {
 	defer c.Close()
 	r := bufio.NewReader(c)
 	w := bufio.NewWriter(c)
@@ -321,12 +464,20 @@ func (st *vfLeaseStore) serve(c net.Conn, id int) {
 			return
 		}
 		st.mu.Lock()
+		if mv, isMoved := st.movedLocked(node, args); isMoved {
+			// a redirect: nothing is executed, no fault / hold applies to it (they wait for the re-issued request)
+			st.mu.Unlock()
+			if err := vfWriteReply(w, mv); err != nil {
+				return
+			}
+			continue
+		}
 		mode := vfFailNone
 		if len(args) > 0 {
 			up := strings.ToUpper(args[0])
 			if up == "PING" {
 				st.lastPingConn = id
-			} else if up != "AUTH" {
+			} else if up != "AUTH" && up != "CLUSTER" && up != "COMMAND" {
 				if st.pauseConn == id {
 					if st.pauseSeen == st.pauseAfter {
 						pch, rch := st.pausedCh, st.releaseCh
@@ -341,7 +492,7 @@ func (st *vfLeaseStore) serve(c net.Conn, id int) {
 				}
 				st.reqLog = append(st.reqLog, up)
 			}
-			if up != "PING" && up != "AUTH" {
+			if up != "PING" && up != "AUTH" && up != "CLUSTER" && up != "COMMAND" { // the cluster client's own housekeeping is never failed
 				mode = st.fail
 				st.fail = vfFailNone
 			}
@@ -938,4 +1089,29 @@ func (st *vfLeaseStore) VerifEvals() int {
 	st.mu.Lock()
 	defer st.mu.Unlock()
 	return st.evals
+}
+
+// ------------------------------------------------------------ cluster mode API
+
+func (st *vfLeaseStore) ClusterAddrs() []string { return append([]string(nil), st.nodeAddrs...) }
+
+// VerifMoveSlot re-assigns the slot of key to node (its keys move with it); returns the slot.
+func (st *vfLeaseStore) VerifMoveSlot(key string, node int) int {
+	st.mu.Lock()
+	defer st.mu.Unlock()
+	sl := vfdoubles.ClusterSlot(key)
+	st.slotOwner[sl] = int16(node)
+	return sl
+}
+
+func (st *vfLeaseStore) VerifOwnerOf(key string) int {
+	st.mu.Lock()
+	defer st.mu.Unlock()
+	return int(st.slotOwner[vfdoubles.ClusterSlot(key)])
+}
+
+func (st *vfLeaseStore) VerifMoved() int {
+	st.mu.Lock()
+	defer st.mu.Unlock()
+	return st.moved
 }
